@@ -21,13 +21,14 @@ import (
 )
 
 type c16Desc struct {
-	Seed    int64   `json:"seed"`
-	Target  string  `json:"target"` // storage-rw | storage-stream | deferred-stream | blockstore | blockstore-many
-	Cfg     lab.Cfg `json:"cfg"`
-	AllK    bool    `json:"allk,omitempty"`  // every byte count, not only {0, mid, len-1}
-	Pairs   bool    `json:"pairs,omitempty"` // also pairs of faults
-	OnlyOrd int     `json:"only_ord,omitempty"`
-	OnlyK   int     `json:"only_k,omitempty"`
+	Seed    int64     `json:"seed"`
+	Target  string    `json:"target"` // storage-rw | storage-stream | deferred-stream | blockstore | blockstore-many
+	Cfg     lab.Cfg   `json:"cfg"`
+	AllK    bool      `json:"allk,omitempty"`  // every byte count, not only {0, mid, len-1}
+	Pairs   bool      `json:"pairs,omitempty"` // also pairs of faults
+	OnlyOrd int       `json:"only_ord,omitempty"`
+	OnlyK   int       `json:"only_k,omitempty"`
+	Kernel  *c16KDesc `json:"kernel,omitempty"` // hook-independent variant: the kernel makes the fault (RLIMIT_FSIZE)
 }
 
 // c16Sess is one store under a fault plan.
@@ -304,6 +305,11 @@ func runC16(t *mon.T, raw json.RawMessage) {
 	if err := json.Unmarshal(raw, &d); err != nil {
 		panic(err)
 	}
+	if d.Kernel != nil {
+		kb, _ := json.Marshal(d.Kernel)
+		runC16Kernel(t, kb)
+		return
+	}
 	r := gen.Rand(d.Seed)
 	content := gen.MakeContent(r, gen.ContentOpts{MinBlocks: 1, MaxBlocks: 5, MinRoots: 1, MaxRoots: 2, Dups: true, Block: gen.BlockOpts{MaxSize: 120}})
 	roots := lab.ToCids(content.Roots, false)
@@ -408,17 +414,26 @@ func genC16(g *mon.G) {
 		}
 		g.Emit(c16Desc{Seed: r.Int63(), Target: tg, Cfg: cfg, AllK: g.Thorough() && i%3 == 0, Pairs: g.Thorough()})
 	}
+	// hook-independent cross-check: the kernel cuts the write (RLIMIT_FSIZE) on an untapped blockstore
+	for i := 0; i < g.Pick(120, 1500); i++ {
+		cfg := lab.Cfg{V1: r.Intn(3) == 0, Sorted: r.Intn(2) == 0}
+		if !cfg.V1 {
+			cfg.DataPad = uint64(r.Intn(3) * 9)
+		}
+		k := []int{0, 1, 2, 3, 5, 20, 37, 38, 39, 40, 60, 100, 200}[r.Intn(13)]
+		g.Emit(c16Desc{Target: "blockstore-kernel", Kernel: &c16KDesc{Seed: r.Int63(), Cfg: cfg, FaultAt: r.Intn(5), K: k, Retry: r.Intn(2) == 0}})
+	}
 }
 
 func init() {
 	Register(&mon.Check{
 		ID:          "C16",
 		Level:       "fault_enumeration",
-		Rule:        "cases = seeded sessions (open, 1-5 puts, finalize) on 5 targets (StorageCar over a WriterAt memfile, StorageCar over a plain io.Writer, deferred stream writer, blockstore.ReadWrite through the verif write hook with Put, and with one PutMany); the fault-free run yields the list of write calls; then EVERY write call is faulted once with accepted byte counts {0, mid, len-1} (quick) or every count (a third of the thorough cases), with and without a retry of the failed block, plus fault pairs in the thorough tier. Oracles: the API call during which the writer failed must return an error; Has(failed block) must be false unless stored earlier; if all later calls succeed the finalized archive must decode strictly, hold exactly the acknowledged blocks, a matching index and consistent header. counters.faulted-sessions counts individual faulted sessions",
-		Assumptions: []string{"fault model: a write call accepts k < len bytes and returns an error once (transient)", "for the blockstore the verif hook performs the partial write and returns the error, as a full disk would; its trace is checked for completeness against the file", "for a failing PutMany the blocks of the batch form a maybe-set"},
+		Rule:        "cases = seeded sessions (open, 1-5 puts, finalize) on 5 targets (StorageCar over a WriterAt memfile, StorageCar over a plain io.Writer, deferred stream writer, blockstore.ReadWrite through the verif write hook with Put, and with one PutMany); the fault-free run yields the list of write calls; then EVERY write call is faulted once with accepted byte counts {0, mid, len-1} (quick) or every count (a third of the thorough cases), with and without a retry of the failed block, plus fault pairs in the thorough tier. Oracles: the API call during which the writer failed must return an error; Has(failed block) must be false unless stored earlier; if all later calls succeed the finalized archive must decode strictly, hold exactly the acknowledged blocks, a matching index and consistent header. counters.faulted-sessions counts individual faulted sessions. Hook-independent cross-check: 120 (quick) / 1500 (thorough) sessions on an UNTAPPED blockstore.ReadWrite in a child process whose soft RLIMIT_FSIZE is lowered to end-of-file + k around one Put (SIGXFSZ ignored), so that the kernel itself cuts the write short / fails it with EFBIG; same oracle",
+		Assumptions: []string{"fault model: a write call accepts k < len bytes and returns an error once (transient)", "for the blockstore the verif hook performs the partial write and returns the error, as a full disk would; its trace is checked for completeness against the file", "for a failing PutMany the blocks of the batch form a maybe-set", "the kernel-made faults (RLIMIT_FSIZE) need no hook at all and validate the hook-made ones"},
 		Gen:         genC16,
 		Run:         runC16,
 		MinCover: map[string]int{"faulted-sessions": 2000, "fault-in:open": 50, "fault-in:put": 500, "fault-in:finalize": 50, "archives-judged-after-fault": 200, "retried-failed-put": 100, "trace-completeness-checked": 5,
-			"target:blockstore": 5, "target:storage-stream": 5, "target:deferred-stream": 5},
+			"target:blockstore": 5, "target:storage-stream": 5, "target:deferred-stream": 5, "kernel:put-failed-by-kernel": 50, "kernel:archives-judged-after-fault": 30},
 	})
 }
